@@ -106,7 +106,7 @@ CHECKS = {
     ),
     "C15": dict(
         subjects=[(n, 1500, 30000) for n in _S["tree"]],
-        classes=["not-linearizable", "functor-call-count", "functor-overlap", "freed-element-observed", "traversal-order", "traversal-mismatch", "size-mismatch", "inconsistent-structure", "avl-imbalance-behind-routing-node", "extract-minmax-false-empty", "extract-minmax-order", "double-dispose", "never-disposed", "dispose-not-inserted"],
+        classes=["not-linearizable", "functor-call-count", "functor-overlap", "freed-element-observed", "traversal-order", "traversal-mismatch", "size-mismatch", "inconsistent-structure", "avl-imbalance-behind-routing-node", "avl-imbalance-after-concurrent-updates", "extract-minmax-false-empty", "extract-minmax-order", "double-dispose", "never-disposed", "dispose-not-inserted"],
         fatal_classes_as_violation=["hang-solo"],   # an operation that can never return although every other client has finished: the sequential specification is total
         expect_probes=["bronson_rotations", "F10_eager_reclaim", "quiescent_traversals"],
         title="Skip lists and trees are linearizable ordered sets and maps",
@@ -114,7 +114,7 @@ CHECKS = {
     ),
     "C13": dict(
         subjects=[(n, 1200, 30000) for n in _S["list"]],
-        classes=["not-linearizable", "functor-call-count", "functor-overlap", "freed-element-observed", "traversal-order", "traversal-mismatch", "size-mismatch", "inconsistent-structure", "avl-imbalance-behind-routing-node", "extract-minmax-false-empty", "extract-minmax-order", "double-dispose", "never-disposed", "dispose-not-inserted"],
+        classes=["not-linearizable", "functor-call-count", "functor-overlap", "freed-element-observed", "traversal-order", "traversal-mismatch", "size-mismatch", "inconsistent-structure", "avl-imbalance-behind-routing-node", "avl-imbalance-after-concurrent-updates", "extract-minmax-false-empty", "extract-minmax-order", "double-dispose", "never-disposed", "dispose-not-inserted"],
         fatal_classes_as_violation=["hang-solo"],   # an operation that can never return although every other client has finished: the sequential specification is total
         expect_probes=["F10_eager_reclaim", "quiescent_traversals"],
         title="Ordered lists are linearizable sets and maps",
@@ -122,7 +122,7 @@ CHECKS = {
     ),
     "C14": dict(
         subjects=[(n, 800, 20000) for n in _S["hash"]],
-        classes=["not-linearizable", "functor-call-count", "functor-overlap", "freed-element-observed", "traversal-order", "traversal-mismatch", "size-mismatch", "inconsistent-structure", "avl-imbalance-behind-routing-node", "extract-minmax-false-empty", "extract-minmax-order", "double-dispose", "never-disposed", "dispose-not-inserted"],
+        classes=["not-linearizable", "functor-call-count", "functor-overlap", "freed-element-observed", "traversal-order", "traversal-mismatch", "size-mismatch", "inconsistent-structure", "avl-imbalance-behind-routing-node", "avl-imbalance-after-concurrent-updates", "extract-minmax-false-empty", "extract-minmax-order", "double-dispose", "never-disposed", "dispose-not-inserted"],
         fatal_classes_as_violation=["hang-solo"],   # an operation that can never return although every other client has finished: the sequential specification is total
         expect_probes=["split_bucket_inits", "split_bucket_init_contention", "feldman_array_nodes_expanded", "feldman_slot_converting", "F10_eager_reclaim"],
         title="Hash sets and maps are linearizable, including during growth",
@@ -130,7 +130,7 @@ CHECKS = {
     ),
     "C16": dict(
         subjects=[(n, 1200, 30000) for n in _S["lockset"]],
-        classes=["not-linearizable", "functor-call-count", "functor-overlap", "freed-element-observed", "traversal-order", "traversal-mismatch", "size-mismatch", "inconsistent-structure", "avl-imbalance-behind-routing-node", "extract-minmax-false-empty", "extract-minmax-order", "double-dispose", "never-disposed", "dispose-not-inserted"],
+        classes=["not-linearizable", "functor-call-count", "functor-overlap", "freed-element-observed", "traversal-order", "traversal-mismatch", "size-mismatch", "inconsistent-structure", "avl-imbalance-behind-routing-node", "avl-imbalance-after-concurrent-updates", "extract-minmax-false-empty", "extract-minmax-order", "double-dispose", "never-disposed", "dispose-not-inserted"],
         fatal_classes_as_violation=["hang-solo"],   # an operation that can never return although every other client has finished: the sequential specification is total
         expect_probes=["cuckoo_relocate_calls", "cuckoo_resize_calls"],
         title="Lock-based hash containers are linearizable across concurrent resizes",
@@ -138,7 +138,7 @@ CHECKS = {
     ),
     "C17": dict(
         subjects=[(n, 800, 20000) for n in _S["lockset"] + [x for x in _S["hash"] if "SplitList" in x or "Feldman" in x]],
-        classes=["not-linearizable", "functor-call-count", "functor-overlap", "freed-element-observed", "traversal-order", "traversal-mismatch", "size-mismatch", "inconsistent-structure", "avl-imbalance-behind-routing-node", "extract-minmax-false-empty", "extract-minmax-order", "double-dispose", "never-disposed", "dispose-not-inserted"],
+        classes=["not-linearizable", "functor-call-count", "functor-overlap", "freed-element-observed", "traversal-order", "traversal-mismatch", "size-mismatch", "inconsistent-structure", "avl-imbalance-behind-routing-node", "avl-imbalance-after-concurrent-updates", "extract-minmax-false-empty", "extract-minmax-order", "double-dispose", "never-disposed", "dispose-not-inserted"],
         fatal_classes_as_violation=["hang-solo"],   # an operation that can never return although every other client has finished: the sequential specification is total
         expect_probes=["cuckoo_relocate_calls", "cuckoo_resize_calls", "split_bucket_inits", "feldman_array_nodes_expanded"],
         assumptions=["degenerate hashes are bounded to what the documented algorithms can hold (CuckooSet: at most arity x probe-set size keys per hash tuple); the 1-thread slice of the batch is plain seeded input generation"],
@@ -147,14 +147,14 @@ CHECKS = {
     ),
     "C18": dict(
         subjects=[(n, 700, 15000) for n in _S["list"] + _S["tree"] + [x for x in _S["hash"] if "SplitList" in x]],
-        classes=["traversal-order", "traversal-mismatch", "size-mismatch", "inconsistent-structure", "avl-imbalance-behind-routing-node", "not-linearizable", "use-after-free"],
+        classes=["traversal-order", "traversal-mismatch", "size-mismatch", "inconsistent-structure", "avl-imbalance-behind-routing-node", "avl-imbalance-after-concurrent-updates", "not-linearizable", "use-after-free"],
         expect_probes=["quiescent_traversals", "bronson_rotations"],
         title="Quiescent structure is well-formed and traversal is exact",
         technique="deterministic simulation of longer concurrent phases (up to 4 threads x 8 ops) followed by quiescence; oracle: traversal visits exactly the keys that find() sees, strictly increasing where ordered, size()/empty() agree, EllenBinTree/Bronson check_consistency(), Bronson search order and AVL balance from recomputed heights",
     ),
     "C20": dict(
         subjects=[(n, 250, 5000) for n in _S["list"] + _S["hash"] + _S["tree"] + _S["lockset"] + _S["queue"] + _S["stack"] + _S["deque"] + _S["pq"] + [x for x in _S["misc"] if "WeakRingBuffer" in x]],
-        classes=["not-linearizable", "functor-call-count", "functor-overlap", "freed-element-observed", "traversal-order", "traversal-mismatch", "size-mismatch", "inconsistent-structure", "avl-imbalance-behind-routing-node", "extract-minmax-false-empty", "extract-minmax-order", "double-dispose", "never-disposed", "dispose-not-inserted", "push-failed-with-space", "pop-failed-with-data", "wrong-element", "element-lost", "pop-front-failed", "wrong-record-size", "wrong-record-bytes"] + ["not-linearizable"],
+        classes=["not-linearizable", "functor-call-count", "functor-overlap", "freed-element-observed", "traversal-order", "traversal-mismatch", "size-mismatch", "inconsistent-structure", "avl-imbalance-behind-routing-node", "avl-imbalance-after-concurrent-updates", "extract-minmax-false-empty", "extract-minmax-order", "double-dispose", "never-disposed", "dispose-not-inserted", "push-failed-with-space", "pop-failed-with-data", "wrong-element", "element-lost", "pop-front-failed", "wrong-record-size", "wrong-record-bytes"] + ["not-linearizable"],
         fatal_classes_as_violation=["hang-solo"],   # an operation that can never return although every other client has finished: the sequential specification is total
         assumptions=["one simulated client thread: the schedule space is a point; what the simulator adds is spurious weak-CAS failure, forced skip-list tower heights, seeded rand()/clock, SMR knobs and eager reclamation; the rest is plain seeded generation of operation sequences (stated in DESIGN.md)"],
         title="Single-threaded API behaviour matches the reference container model",
